@@ -85,7 +85,7 @@ class HistSpec(Spec):
             from .engines import sched
 
             return sched.SchedRun(seed, tier, tag, prop="C09").run()
-        if prop in STORE_PROPS and seed % 4 == 0:
+        if prop in STORE_PROPS and (seed % 4 == 0 or (prop == "C06" and seed % 4 == 2)):
             from .engines import store
 
             return store.StoreRun(prop, store.make_config(prop, seed, tier), tag=tag).run()
